@@ -175,7 +175,7 @@ func opForward(run *hx.Run, class, raw, pat string) {
 		go func() {
 			defer close(done)
 			defer func() { _ = recover() }()
-			lite.Forward(2*time.Second, rs, logr.Discard(), fc, hs, pc, lite.NewStrategyManager())
+			lite.Forward(10*time.Minute, rs, logr.Discard(), fc, hs, pc, lite.NewStrategyManager())
 		}()
 		dials := 0
 		var accepted []net.Conn
